@@ -305,6 +305,23 @@ def case_golomb_own_consistency_enumeration():
     return bad == 0, f"{bad} of the first {n} vectors violate the symmetry-breaking constraint"
 
 
+def case_golomb_two_marks_symmetry_breaking():
+    """GolombProblem(n, True) must stay satisfiable with the optimum of GolombProblem(n, False) for n = 2, 3, 4 (the pinned tree posts
+    d(0,1) < d(n-2,n-1) also for n = 2, where both are the same variable: the ruler (0, 1) was lost)"""
+    from nucs.examples.golomb.golomb_problem import GolombProblem
+    from nucs.solvers.backtrack_solver import BacktrackSolver
+
+    got = []
+    for n in (2, 3, 4):
+        opt = []
+        for sb in (False, True):
+            p = GolombProblem(n, sb)
+            s = BacktrackSolver(p, log_level="ERROR").minimize(p.length_idx)
+            opt.append(None if s is None else int(s[p.length_idx]))
+        got.append(opt)
+    return got == [[1, 1], [3, 3], [6, 6]], f"optimal lengths [without, with] symmetry breaking for 2, 3, 4 marks: {got}"
+
+
 CASES = {
     "affine_eq_ground": (case_affine_eq_ground, ["C06", "C01"]),
     "affine_zero_coeffs": (case_affine_zero_coeffs, ["C06"]),
@@ -322,6 +339,7 @@ CASES = {
     "worker_death": (case_worker_death, ["C18"]),
     "add_variable_shared_domains": (case_add_variable_shared_domains, ["C13", "C01"]),
     "golomb_own_consistency_enumeration": (case_golomb_own_consistency_enumeration, ["C20"]),
+    "golomb_two_marks_symmetry_breaking": (case_golomb_two_marks_symmetry_breaking, ["C20"]),
 }
 
 
